@@ -248,7 +248,9 @@ class Run:
         except Exception as ex:
             ok, out = False, str(ex)
         text = open(path).read()
-        if re.search(r'\b(sorry|admit|axiom)\b', text):
+        code = re.sub(r'/-.*?-/', '', text, flags=re.S)
+        code = re.sub(r'--.*', '', code)
+        if re.search(r'\b(sorry|admit|axiom)\b', code):
             ok = False
             out += ' [contains sorry/admit/axiom]'
         self.lemmas.append({'file': 'lemmas/' + fname, 'ok': ok, 'secs': round(time.time() - t, 1), 'statement': statement_note,
